@@ -70,6 +70,7 @@ class Sys:
         ins(r'^std::rt::begin_panic::<|^core::panicking::panic|^std::rt::panic_fmt$|^std::panic::resume_unwind$', self.m_panic)
         # runtime: the spawner type parameter is resolved to hannibal's TokioSpawner, tokio itself is modelled
         ins(r'^<[SP] as (spawner::)?Spawner<(Self|A)>>::(spawn_future|sleep|spawn_actor)', self.m_spawner_dispatch)
+        ins(r'^<AssertUnwindSafe<.*> as (futures::)?FutureExt>::catch_unwind$', lambda e, st, fr, t, a: VAgg(name='CatchUnwind', fields={('f', 0): a[0]}))
         ins(r'^tokio::spawn::<', self.m_tokio_spawn)
         ins(r'^async_std::task::spawn::<', self.m_rt_spawn('AsyncJoinHandle'))
         ins(r'^smol::spawn::<', self.m_rt_spawn('SmolTask'))
